@@ -283,6 +283,36 @@ void suite_rsmat(int tier) {
         free_systematic_matrix(mat);
         stat_add("rsmat.shapes", 1);
     }
+    /* parity bytes: encode vs the model (and vs an independent shift-and-add product over the
+       library's own matrix) for block sizes of every residue modulo 16 */
+    for (int t = 0; t < (tier ? 400 : 60); t++) {
+        int k = 1 + (int)rnd(t % 5 == 0 ? 31 : 12), m = 1 + (int)rnd(t % 5 == 0 ? 32 - k : 5);
+        if (k + m > 32) m = 32 - k;
+        cfg_t c = { 6, k, m, m, 1 };
+        size_t bs = 2 * (1 + (t % 8)) + (rnd(4) == 0 ? 16 * rnd(20) : 0);
+        size_t len = (size_t)k * bs - (rnd(3) == 0 ? rnd(2 * k) % (k * bs) : 0);
+        if (len == 0) len = 1;
+        unsigned char *d = gen_data(len, (int)rnd(3));
+        stripe_t s;
+        if (op_enc(c, 0, d, len, &s) != 0) { oracle_fail("C04", "encode failed for (%d,%d)", k, m); free(d); continue; }
+        free(d);
+        int *mat = make_systematic_matrix(k, m);
+        uint64_t pb = s.flen - HDR;
+        for (int r = 0; r < m && mat; r++) for (uint64_t w = 0; w + 1 < pb; w += 2) {
+            unsigned acc = 0;
+            for (int j = 0; j < k; j++) {
+                unsigned x = (unsigned char)s.all[j][HDR + w] | ((unsigned)(unsigned char)s.all[j][HDR + w + 1] << 8);
+                unsigned g = (unsigned)mat[(k + r) * k + j], pr = 0;
+                for (int bit = 0; bit < 16; bit++) { if (g & (1u << bit)) pr ^= x; x <<= 1; if (x & 0x10000) x ^= 0x1100b; }
+                acc ^= pr;
+            }
+            unsigned got = (unsigned char)s.all[k + r][HDR + w] | ((unsigned)(unsigned char)s.all[k + r][HDR + w + 1] << 8);
+            if (got != acc) { oracle_fail("C04", "parity %d word %llu of (%d,%d) block size %llu is %04x, matrix*data gives %04x", r, (unsigned long long)(w / 2), k, m, (unsigned long long)pb, got, acc); r = m; break; }
+        }
+        if (mat) free_systematic_matrix(mat);
+        char key[40]; snprintf(key, sizeof key, "rsmat.parity_bs_mod16_%llu", (unsigned long long)(pb % 16)); stat_add(key, 1);
+        stripe_free(&s);
+    }
     /* log / antilog tables, all entries */
     for (int start = 0; start < 65536; start += 4096) {
         op_begin("gftab %d %d", start, 4096); op_sep();
